@@ -16,7 +16,7 @@ ASSUMPTIONS = wa.ASSUMPTIONS + ["atom names are unique inside a generated residu
                                 "comparing (names, name-labelled edges); virtual-site kinds generated: virtual_sitesn funct 1, "
                                 "virtual_sites2, virtual_sites3 funct 1"]
 REAL_VS_STUB = wa.REAL_VS_STUB
-PROBES = wa.PROBES + ["improper_dihedral", "strained_ring", "skip_filter", "unoptimisable_residue", "optimisation_fall_through", "user_template", "user_volume", "resname_clash"]
+PROBES = wa.PROBES + ["earlier_call_same_topology_paths", "improper_dihedral", "strained_ring", "skip_filter", "unoptimisable_residue", "optimisation_fall_through", "user_template", "user_volume", "resname_clash"]
 PROFILE = {"impossible_p": 0.4, "vs_p": 0.4, "improper_p": 0.6, "strained_p": 0.35,
            "n_restypes": (2, 3), "n_moltypes": (2, 3), "max_atoms": 4, "faults": ["opt", "opt", "step"],
            "max_molecules": 5, "maxres": 5, "box_modes": ["cubic"], "n_entries": (2, 3)}
@@ -42,6 +42,8 @@ def gen_job(verif_seed, tier, index):
         for _ in range(t.randint(1, 4)):
             lane += [1] * t.choice([1, 2, 5, 11, 12, 14]) + [0] * t.randint(1, 2)
         job["tape"]["opt"] = lane
+    if not job.get("user_templates") and g.random() < 0.12:
+        jobgen.add_pre_variant(job, g, "other_geometry")       # same labelled graphs, other parameters, earlier call
     return job
 
 
